@@ -10,7 +10,7 @@
    model it read back on every run.  The validator itself is exercised, not modelled. *)
 From Coq Require Import ZArith QArith List Bool String.
 From Cobra.IO Require Import Str JVal DictModel SbmlId SbmlProofs SbmlNum SbmlDoc SbmlGpr SbmlDocLemmas SbmlDocProofs
-  SbmlCheck SbmlDocNecessity.
+  SbmlDocIdentity SbmlCheck SbmlDocNecessity.
 From Cobra.GPR Require Syntax.
 From Cobra.Gen Require Import Config SbmlTables.
 Import ListNotations.
@@ -120,6 +120,22 @@ Theorem C10_sbml_doc_roundtrip :
   forall c m, sbml_ok dec wnum clean E c m = true -> roundtrip dec undec wnum clean E c m = Ok (norm dec E m).
 Proof. exact sbml_doc_roundtrip. Qed.
 Print Assumptions C10_sbml_doc_roundtrip.
+
+(* the property as stated -- the same model on every field the document carries -- for models that are already in
+   the form one trip produces (sbml_canon: a boolean test; what it asks is listed in IO/SbmlDocIdentity.v) *)
+Theorem C10_sbml_doc_identity :
+  forall dec undec wnum clean E,
+  (forall c, undec (dec c) = c) -> (forall c, dec c <> [] /\ forallb is_digit (dec c) = true) -> env_ok E = true ->
+  forall c m, sbml_ok dec wnum clean E c m = true -> sbml_canon m = true ->
+  roundtrip dec undec wnum clean E c m = Ok (forget m).
+Proof. exact sbml_doc_identity. Qed.
+Print Assumptions C10_sbml_doc_identity.
+
+(* non-vacuity of sbml_canon: the model that comes back from the witness below satisfies both conditions *)
+Example C10_sbml_canon_witness :
+  sbml_ok to_dec wnum15 cur_clean cur_env cfg0 (NORM witness) = true /\ sbml_canon (NORM witness) = true /\
+  NORM witness <> forget witness.
+Proof. vm_compute. repeat split; try reflexivity. discriminate. Qed.
 
 (* the constants regenerated from the source satisfy env_ok *)
 Example C10_env_ok_current : env_ok cur_env = true.
